@@ -826,6 +826,75 @@ fn op_fixes(req: &J) -> J {
     json!({"fixes": fixes_json})
 }
 
+/// `eval_up_to`: what `garden reftest-eval-up-to` does (run the whole
+/// file, then eval-up-to at `offset`), with the result as JSON and
+/// stdout/stderr captured.
+fn op_eval_up_to(req: &J) -> J {
+    use crate::eval::{eval_toplevel_items, eval_up_to, EvalError, EvalUpToErr, Session, StdoutStderrMode};
+    use std::sync::atomic::AtomicBool;
+    use std::sync::{Arc, Mutex};
+
+    let src = req["src"].as_str().unwrap_or("");
+    let offset = req["offset"].as_u64().unwrap_or(0) as usize;
+
+    let mut id_gen = IdGenerator::default();
+    let (vfs, vfs_path) = Vfs::singleton(PathBuf::from("/verif.gdn"), src.to_owned());
+    let (items, errors) = parse_toplevel_items(&vfs_path, src, &mut id_gen);
+    if !errors.is_empty() {
+        return json!({"parse_errors": errors.iter().map(err_json).collect::<Vec<_>>()});
+    }
+
+    let mut env = crate::env::Env::new(id_gen, vfs);
+    let ns = env.get_or_create_namespace(std::path::Path::new("/verif.gdn"));
+    env.current_frame_mut().namespace = ns;
+    if let Some(n) = req["tick_limit"].as_u64() {
+        env.tick_limit = Some(n as usize);
+    }
+
+    let stdout_buf = Arc::new(Mutex::new(String::new()));
+    let stderr_buf = Arc::new(Mutex::new(String::new()));
+    let session = Session {
+        interrupted: Arc::new(AtomicBool::new(false)),
+        stdout_stderr_mode: StdoutStderrMode::WriteToNReplBuffers {
+            stdout_buf: Arc::clone(&stdout_buf),
+            stderr_buf: Arc::clone(&stderr_buf),
+        },
+        start_time: std::time::Instant::now(),
+        trace_exprs: false,
+        pretty_print_json: false,
+    };
+
+    let describe_err = |e: EvalError| -> J {
+        match e {
+            EvalError::Exception(info) => {
+                json!({"kind": "exception", "pos": pos_json(&info.position), "message": info.message.as_string()})
+            }
+            EvalError::AssertionFailed(p, m) => {
+                json!({"kind": "assertion", "pos": pos_json(&p), "message": m.as_string()})
+            }
+            EvalError::Interrupted => json!({"kind": "interrupted"}),
+            EvalError::ReachedTickLimit(p) => json!({"kind": "tick_limit", "pos": pos_json(&p)}),
+            EvalError::ReachedStackLimit(p) => json!({"kind": "stack_limit", "pos": pos_json(&p)}),
+            EvalError::ForbiddenInSandbox(p) => json!({"kind": "sandbox", "pos": pos_json(&p)}),
+        }
+    };
+
+    if let Err(e) = eval_toplevel_items(&vfs_path, &items, &mut env, &session) {
+        return json!({"first_run_failed": describe_err(e)});
+    }
+    let ticks_before = env.ticks;
+
+    let res = match eval_up_to(&vfs_path, &mut env, &session, &items, offset) {
+        Ok((v, pos)) => json!({"kind": "value", "value": v.display(&env), "pos": pos_json(&pos)}),
+        Err(EvalUpToErr::EvalError(e)) => describe_err(e),
+        Err(EvalUpToErr::NoExpressionFound) => json!({"kind": "no_expression"}),
+        Err(EvalUpToErr::NoValueAvailable) => json!({"kind": "no_value"}),
+    };
+    let out = stdout_buf.lock().unwrap().clone();
+    let err = stderr_buf.lock().unwrap().clone();
+    json!({"result": res, "stdout": out, "stderr": err, "ticks": env.ticks - ticks_before, "frames": frames_json(&env)})
+}
+
 fn dispatch(req: &J) -> J {
     match req["op"].as_str().unwrap_or("") {
         "lex" => op_lex(req),
@@ -836,6 +905,7 @@ fn dispatch(req: &J) -> J {
         "unify_all" => op_unify_all(req),
         "lsp_pos" => op_lsp_pos(req),
         "run" => op_run(req),
+        "eval_up_to" => op_eval_up_to(req),
         "refactor" => op_refactor(req),
         "check" => op_check(req),
         "fixes" => op_fixes(req),
